@@ -277,6 +277,8 @@ func TestVerifC19(t *testing.T) {
 	if !run.Replaying() && nForwarded == 0 {
 		run.Inconclusive("C19 fed-provider: the provider refused every context: nothing judged")
 	}
+	// one context handed to the providers of several remotes (c19multi_test.go)
+	c19ProviderMulti(run, local, others)
 
 	// ---------------------------------------------------------- fed-conn
 	remoteIDs := []string{"z1111", "z2222", "z3333"}
@@ -298,6 +300,11 @@ func TestVerifC19(t *testing.T) {
 	truth := map[string]c19kit.Tok{}
 	rails.Respond = func(r *c19kit.Req) (int, string) {
 		if !strings.HasPrefix(r.RequestURI, "/arvados/v1/api_client_authorizations/current") {
+			// the local cluster has none of the objects asked for: a get is
+			// "not found", a list (fed-conn-multi) is empty
+			if p := strings.SplitN(r.RequestURI, "?", 2)[0]; p == "/arvados/v1/collections" || p == "/arvados/v1/containers" {
+				return 200, `{"items":[]}`
+			}
 			return 404, `{"errors":["not found"]}`
 		}
 		tok := ""
@@ -465,6 +472,25 @@ func TestVerifC19(t *testing.T) {
 	if !run.Replaying() && nConnFwd == 0 {
 		run.Inconclusive("C19 fed-conn: no request ever reached a stub remote: nothing observed")
 	}
+	// one context, several operations that reach several remotes
+	// (c19multi_test.go); runs last: see the note on late requests there
+	c19ConnMulti(run, c19ConnEnv{
+		conn: conn, stubs: stubs, rails: rails, remoteIDs: remoteIDs, clusters: clusters,
+		setTruth: func(toks []c19kit.Tok) {
+			truthMu.Lock()
+			truth = map[string]c19kit.Tok{}
+			for _, tk := range toks {
+				if tk.Class == "legacy" {
+					truth[tk.Str] = tk
+				}
+			}
+			truthMu.Unlock()
+		},
+		runSingle: func(c c19Case) (c19kit.Judged, []c19kit.Finding) {
+			r := runConn(c)
+			return r.judged, r.strayHit
+		},
+	})
 }
 
 func c19JSON(v interface{}) string {
